@@ -12,6 +12,10 @@ Definition exact_leaf (k : leafk) : bool :=
   match k with
   | LErrString _ | LDeadline | LLeafError _ | LUnimpl _ _ _ | LErrno _ | LTestError => true
   | LGrpcStatus c _ | LGogoStatus c _ => negb (c =? 0)
+  (* an errno forwarded from another platform comes back as the same *errbase.OpaqueErrno;
+     one that carries the platform of the decoding process is turned back into a
+     syscall.Errno: a different value (witness in [exact_conditions_needed_errno]) *)
+  | LOpaqueErrno _ pe => negb (str_eqb (en_arch pe) this_arch)
   | _ => false
   end.
 
@@ -116,6 +120,7 @@ Proof.
   - now apply st_errorString.
   - now apply st_deadline.
   - now apply st_errno.
+  - cbn [exact_leaf] in H. apply negb_true_iff in H. now apply st_opaqueErrno.
   - now apply st_leafError.
   - now apply st_unimpl.
   - cbn [exact_leaf] in H. apply negb_true_iff, N.eqb_neq in H. now apply st_grpcStatus.
@@ -165,6 +170,13 @@ Lemma exact_conditions_needed :
   (* Join() of nothing *)
   inexact (Multi 100%positive MJoin []).
 Proof. unfold inexact. repeat split; vm_compute; discriminate. Qed.
+
+(* an *errbase.OpaqueErrno that carries the platform of the receiver becomes a syscall.Errno;
+   *net.OpError has no decoder: opaque wrapper *)
+Lemma exact_conditions_needed_errno :
+  inexact (Leaf 100%positive (LOpaqueErrno (lit "boom") (mkerrno 1%Z this_arch false false false false false))) /\
+  inexact (x_on (WOpError (lit "dial") (lit "tcp") [] (lit "1.2.3.4:80"))).
+Proof. unfold inexact. split; vm_compute; discriminate. Qed.
 
 (* unfolded *)
 Corollary exact_hop_erase e n :
@@ -296,7 +308,7 @@ Qed.
 Ltac node_cases x :=
   let w := fresh "w" in let r := fresh "r" in
   destruct x as [? ?|? w ?|? ? ?|? ? ?|? ? ?|? ? ? ?|? ? ? ? ?]; try reflexivity;
-  destruct w as [?|?|?|?|?|? ?|?|?|? r| |?|?|?|?|?|?|?|? ?|? ? ?|?|? ? ?]; try reflexivity;
+  destruct w as [?|?|?|?|?|? ?|?|?|? r| |?|?|?|?|?|?|?|? ?|? ? ?|?|? ? ? ?|? ? ?]; try reflexivity;
   destruct r; reflexivity.
 
 (* hints *)
